@@ -280,6 +280,7 @@ class VThread(object):
         self.started = False
         self.finished = False
         self.running_now = False
+        self.crashed = None
         RT.threads.append(self)
 
     def start(self):
@@ -308,6 +309,13 @@ class VThread(object):
             self.finished = True
         except PumpYield:
             pass
+        except Exception:
+            # as with a real thread: an uncaught exception ends this thread
+            # only (threading.excepthook prints it); nobody else sees it
+            import traceback
+            self.finished = True
+            self.crashed = traceback.format_exc()
+            RT.trace.append(('thread-crash', self.name, self.crashed))
         finally:
             self.running_now = False
 
